@@ -3,7 +3,7 @@ ID = "C20"
 LEVEL = "exploration"
 HERE = os.path.dirname(os.path.abspath(__file__))
 ASSUMPTIONS = [
-    "'returned to the allocator' is observed at free()/realloc() issued by library objects (link-time --wrap) and by OpenSSL (CRYPTO_set_mem_functions); copies in registers, on the stack or in libc's stdio buffer are outside the property's wording and not visible",
+    "'returned to the allocator' is observed at free()/realloc() issued by library objects (link-time --wrap), by OpenSSL (CRYPTO_set_mem_functions) and, while a key file is being read, at every release at all, including libc's own (AddressSanitizer free hook; that is how F14, the stdio buffer, was seen); copies in registers or on the stack are outside the property's wording",
     "which bytes of an opaque AES object are secret is found differentially (same history, two keys): bytes that do not depend on the key are not required to be wiped",
     "the -O1/ASan build, a plain -O2 build and an -O2 -flto build (whole-library optimisation at link time) of the library are checked (wiping must survive optimisation)",
     "trusted: clang 14, rapidcheck, OpenSSL 3 memory hooks, engine/allocwrap.h",
@@ -49,5 +49,5 @@ MANIFEST = dict(
          "key may not occur (AES-NI and OpenSSL paths). During the DH calls every buffer OpenSSL frees or reallocates is searched for the private exponent, "
          "the blinding value and the blinded exponent in both byte orders. Key files failing after the secret line must not release a block that still "
          "holds the secret. All of it is repeated against a plain -O2 build of the library so that an optimised-away memset is visible.",
-    note="Trusted: the free()/realloc() hooks see every release made by library code and by OpenSSL; registers, stack slots and libc-internal buffers are out of scope (as in the property).",
+    note="Trusted: the free()/realloc() hooks see every release made by library code and by OpenSSL, and (key files, ASan build) every release made by libc on the library's behalf; registers and stack slots are out of scope (as in the property).",
 )
